@@ -132,7 +132,7 @@ class Session(object):
         self.sock = MemSock(log)
         handlers = SmtpSession(('192.0.2.1', 1234), V, handoff)
         self.server = Server(self.sock, handlers, ('192.0.2.1', 1234), command_timeout=cfg.get('command_timeout'),
-                             data_timeout=cfg.get('data_timeout'))
+                             data_timeout=cfg.get('data_timeout'), auth=cfg.get('auth', False))
         if cfg.get('max_size'):
             self.server.extensions.add('SIZE', cfg['max_size'])
         self.contents = {}
